@@ -329,6 +329,21 @@ def main():
             thorough_extra['contraction_build'] = {'cases': len(sel), 'oracle_violations': len(v5), 'wall_s': round(time.time() - t1, 1)}
             for v in v5[:3]:
                 sanitizer_viol.append(dict(v, what='compiled with clang++ -O2 -mfma (floating-point contraction on): ' + v['what']))
+            if pid == 'C09':
+                # channel selection must stay valid (an existing, enabled channel; the interval of the canonical number) even when the user
+                # compiles with -ffast-math, as production Monte Carlo codes often do: judged by the oracle alone
+                t1 = time.time()
+                fm = tie.cxx_build('-O2 -ffast-math' + (' -DVERIF_MPI' if use_mpi else ''), 'fastmath' + ('-mpi' if use_mpi else ''))
+                outs = tie.run_driver(fm, lines, env=env, chunk=50, timeout=3000, cpu_limit=300)
+                res6 = []
+                for (c_, m_), o in zip(sel, outs):
+                    try: po = parse(o)[1]
+                    except Exception: po = ['crash']
+                    res6.append({'case': c_, 'cxx': po, 'model': None})
+                v6 = props.oracle(pid, res6, [m_ for c_, m_ in sel], dict(st, cxx_exe=fm))
+                thorough_extra['fast_math_build'] = {'cases': len(sel), 'oracle_violations': len(v6), 'wall_s': round(time.time() - t1, 1)}
+                for v in v6[:3]:
+                    sanitizer_viol.append(dict(v, what='compiled with g++ -O2 -ffast-math: ' + v['what']))
         except Stage as e:
             thorough_extra['contraction_build'] = {'build_failed': e.detail[-300:]}
         except Exception:
